@@ -150,7 +150,7 @@ class FramerDelivers(FunctionContract):
         return None
 
 
-def make_client(E, kind, wire, rec, retries, retry_on_empty, retry_on_invalid, transport, connect_ok=True, udp=False, decoder_outcomes=('message',)):
+def make_client(E, kind, wire, rec, retries, retry_on_empty, retry_on_invalid, transport, connect_ok=True, udp=False, decoder_outcomes=('message',), tcp=False):
     """client + DictTransactionManager + real framer of `kind`; transport(n_read, size) -> bytes | raises"""
     CUR['rec'], CUR['wire'] = rec, wire
     CUR['raised_after_delivery'] = False
@@ -177,8 +177,10 @@ def make_client(E, kind, wire, rec, retries, retry_on_empty, retry_on_invalid, t
         wire.reads.append((size, data))
         wire.events.append('recv')
         return data
-    cls = 'pymodbus.client.sync.ModbusUdpClient' if udp else BASE
-    extra = dict(host='peer', port=502) if udp else {}
+    # the transaction manager looks at str(client): 'modbusudpclient' selects the whole-datagram read; the TCP client class is the
+    # framer-over-TCP case (any framing carried by a ModbusTcpClient)
+    cls = 'pymodbus.client.sync.ModbusUdpClient' if udp else ('pymodbus.client.sync.ModbusTcpClient' if tcp else BASE)
+    extra = dict(host='peer', port=502) if (udp or tcp) else {}
     client = E.obj(cls, framer=None, transaction=None, broadcast_enable=False, state=E.choice('client_state', [0, 6]), last_frame_end=None, silent_interval=0,
                    connect=E.callback(connect, 'connect'), close=E.callback(close, 'close'), send=E.callback(send, 'send'), recv=E.callback(recv, 'recv'),
                    timeout=3, **extra)
